@@ -24,7 +24,7 @@ verus! {
 // ---- C07 ----
 //@extract src/verifylib.rs fn:verify_threshold_constraints props=C07,C14
 //@uncontinue
-//@subst D16 /&key_link_per_step\[reference_keyid\]/ => key_link_per_step.get(reference_keyid).expect("no entry found for key")
+//@mapindex key_link_per_step
 //@contract ret=r
 //@include contracts/threshold_constraints.rs
 //@before /for step in &layout\.steps/
